@@ -96,6 +96,7 @@ pub struct Checkpoint {
     block: BlockInfo,
     feed_len: usize,
     tx_count: u64,
+    pub pause_shadow: bool,
 }
 
 // ---------------------------------------------------------------------------------------------
@@ -541,6 +542,9 @@ pub struct EngSnap {
     pub oi: u128,
     pub bad_debt: u128,
     pub paused: bool,
+    /// false when no record with a pause flag was found in the engine's storage (the flag is then the harness's own
+    /// record of accepted SetPause calls and the monitors do not compare it with anything)
+    pub paused_reported: bool,
     pub pauser: String,
     pub whitelist: Vec<String>,
 }
@@ -603,6 +607,8 @@ pub struct World {
     /// e.g. after a change of the storage layout)
     pub pos_by_query: std::cell::Cell<bool>,
     pub snap_count: std::cell::Cell<u64>,
+    /// pause flag according to the accepted SetPause calls (fallback when the engine's storage shows no pause flag)
+    pub pause_shadow: std::cell::Cell<bool>,
 }
 
 fn u(v: u128) -> Uint128 {
@@ -828,6 +834,7 @@ impl World {
             base_keys: Default::default(),
             pos_by_query: std::cell::Cell::new(false),
             snap_count: std::cell::Cell::new(0),
+            pause_shadow: std::cell::Cell::new(false),
         };
         w.deploy_height = w.height();
         w.deploy_time = w.now();
@@ -882,6 +889,7 @@ impl World {
             block: self.app.block_info(),
             feed_len: self.feed_hist.len(),
             tx_count: self.tx_count,
+            pause_shadow: self.pause_shadow.get(),
         }
     }
     pub fn restore(&mut self, cp: Checkpoint) {
@@ -889,6 +897,7 @@ impl World {
         self.app.set_block(cp.block);
         self.feed_hist.truncate(cp.feed_len);
         self.tx_count = cp.tx_count;
+        self.pause_shadow.set(cp.pause_shadow);
     }
 
     pub fn vamm_idx(&self, addr: &str) -> Option<usize> {
@@ -1308,6 +1317,7 @@ impl World {
         let mut sent_funds = false;
         let mut tmp_liq = false;
         let mut paused = false;
+        let mut paused_reported = false;
         for (k, v) in &dump {
             if let Ok(p) = serde_json::from_slice::<eng::Position>(v) {
                 // (a record that parses as the repository's own Position type is a position)
@@ -1344,8 +1354,14 @@ impl World {
                 // exist from instantiation on; everything else the engine creates later is an object)
                 tmp_liq = true;
             } else if has("pause") && has("open_interest_notional") {
-                paused = val.as_ref().and_then(|x| x.get("pause")).and_then(|p| p.as_bool()).unwrap_or(false);
+                if let Some(b) = val.as_ref().and_then(|x| x.get("pause")).and_then(|p| p.as_bool()) {
+                    paused = b;
+                    paused_reported = true;
+                }
             }
+        }
+        if !paused_reported {
+            paused = self.pause_shadow.get();
         }
         pos.sort_by(|a, b| (a.vamm, &a.trader).cmp(&(b.vamm, &b.trader)));
         // cross-check the discovery against the public Position query now and then (and whenever nothing was found);
@@ -1386,6 +1402,7 @@ impl World {
             oi: es.open_interest_notional.u128(),
             bad_debt: es.bad_debt.u128(),
             paused,
+            paused_reported,
             pauser,
             whitelist,
         };
